@@ -6,6 +6,7 @@ CONSTANTS
   Alias <- AliasAll
   IntVal <- IntValInt
   Travs <- AllTravs
+  LenEnabled = TRUE
   MaxSteps = 60
   ViewHist = 0
   EmitAll = FALSE
